@@ -1762,6 +1762,8 @@ def _init_class_dict(cls):
     for k, v in cls.__dict__.items():
         if k in attributes_to_include:
             cls_dict[k] = v
+    if IGNORE_NONE_VALUES not in cls_dict and hasattr(cls, IGNORE_NONE_VALUES):
+        cls_dict[IGNORE_NONE_VALUES] = getattr(cls, IGNORE_NONE_VALUES)
 
     return cls_dict
 
